@@ -4,7 +4,7 @@
 set -u
 P=$1; PATCH=$2; TIER=${3:-quick}
 WT=/tmp/wt/run-$P-$$
-git -C /repo worktree add --detach "$WT" HEAD -q || exit 2
+for try in 1 2 3 4 5; do git -C /repo worktree add --detach "$WT" HEAD -q && break; sleep 3; done; [ -d "$WT" ] || exit 2
 git -C "$WT" apply "$PATCH" || { git -C /repo worktree remove --force "$WT"; echo "patch does not apply"; exit 2; }
 mkdir -p /tmp/seedrun
 VERIF_REPO=$WT GOSYM_NOEVIDENCE=1 GOSYM_REPLAYDIR=/tmp/seedrun/replays-$P-$$ /verif/check $P $TIER 2>&1 | sed "s#$WT#/repo#g" | grep -v '^  ' | tail -15
